@@ -7,6 +7,9 @@ src_prop = prop
 if prop.endswith("b"):          # second round of sub-agents: /tmp/wt/<ID>b_out, seeds numbered from 3
     prop = prop[:-1]
     dst_k = str(int(k) + 2)
+elif prop.endswith("c"):        # third round: seeds numbered from 6
+    prop = prop[:-1]
+    dst_k = str(int(k) + 5)
 else:
     dst_k = k
 summary = sys.argv[5] if len(sys.argv) > 5 else ""
